@@ -44,7 +44,7 @@ func loadStrings(path string) ([]*textStr, error) {
 // ---------------------------------------------------------------- C06
 
 var c06Props = []string{"name", "summary", "content", "preferredUsername", "source.content"}
-var c06Forms = []string{"single", "tagged1", "map2", "map3"}
+var c06Forms = []string{"single", "tagged1", "map2", "map3", "map2-case"}
 
 func c06Value(prop, form string, text []byte) (ap.Item, []string) {
 	var n ap.NaturalLanguageValues
@@ -57,6 +57,9 @@ func c06Value(prop, form string, text []byte) (ap.Item, []string) {
 	case "map2":
 		n = ap.NaturalLanguageValues{{Ref: "en", Value: ap.Content(text)}, {Ref: "fr", Value: ap.Content("fixe")}}
 		tags = []string{"en", "fr"}
+	case "map2-case": // tags are case-sensitive strings: they must come back as they were
+		n = ap.NaturalLanguageValues{{Ref: "en-US", Value: ap.Content(text)}, {Ref: "zh-Hant", Value: ap.Content("fixe")}}
+		tags = []string{"en-US", "zh-Hant"}
 	case "map3":
 		n = ap.NaturalLanguageValues{{Ref: "de", Value: ap.Content("fest")}, {Ref: "en", Value: ap.Content(text)}, {Ref: "fr", Value: ap.Content("fixe")}}
 		tags = []string{"de", "en", "fr"}
@@ -153,7 +156,7 @@ func c06One(codec, prop, form string, t *textStr) J {
 		got := []string{}
 		for _, e := range n {
 			got = append(got, string(e.Ref))
-			if e.Ref == "en" {
+			if e.Ref == "en" || e.Ref == "en-US" {
 				ev["out"] = hex.EncodeToString(e.Value)
 			}
 		}
